@@ -1,8 +1,9 @@
 """C29 — commands: pool automaton + real scheduler runs with the command."""
 from vp.sched.stream import SchedStream
 from vp.props.c01 import TRUSTED, ASSUMES  # noqa
+from vp.sched import corpora
 
-STREAMS = [SchedStream('C29', name='sched-set', feat={'set': True, 'hold': True, 'retries': True, 'abs': True}, n_quick=32, n_thorough=700)]
+STREAMS = [SchedStream('C29', name='sched-set', feat={'set': True, 'hold': True, 'retries': True, 'abs': True}, n_quick=32, n_thorough=700, corpus=corpora.c29_corpus())]
 META = {
     "level_text": 'Coq theorems over the pool automaton: a forced status change never yields submitted/running; children of a set output get exactly the matching prerequisite atoms satisfied and only for outputs really completed (the same ESat rule as for natural outputs); set --pre satisfies only prerequisites the task has; force-satisfied atoms count in the readiness test; the pool safety invariant holds across set commands. Tie: real runs with cylc set on pooled and not-yet-spawned instances (default outputs, chosen outputs, single prerequisites, --pre=all) at generated iterations, accepted by the automaton. Oracle: requested + implied outputs complete afterwards, children spawned with the prerequisite satisfied, no forced submitted/running. Implied-output and default-output rules are not theorems here (partial; see C09/C12).',
     "level_note": TRUSTED[0] + " Commands use --flow=all only; new/none flows are not generated.",
